@@ -136,6 +136,10 @@ def run(tier, seed, replay):
             enum_of[k] = False
         cases.append(c)
         derive_of[k] = tr
+    for (c, tr) in R.pinned_struct_cases(ncase):
+        cases.append(c)
+        derive_of[c.k] = tr
+        enum_of[c.k] = False
     out, err = R.build_and_run("c05_rt", cases, derive_of, enum_of, chk)
     if out is None:
         chk.violation("rt-corpus-does-not-compile", {"stderr": err[-4000:]},
